@@ -126,6 +126,11 @@ pub open spec fn enc16(v: u16) -> Seq<u8> { seq![(v >> 8) as u8, (v & 0xff) as u
 pub open spec fn i32_bits(x: i32) -> nat { if x >= 0 { x as nat } else { (x + 0x1_0000_0000) as nat } }
 pub open spec fn bits_i32(v: nat) -> i32 { if v < 0x8000_0000 { v as i32 } else { (v - 0x1_0000_0000) as i32 } }
 
+pub proof fn lemma_be16_enc16(v: u16)
+    ensures be16((v >> 8) as u8, (v & 0xff) as u8) == v, enc16(v).len() == 2
+{
+    assert((((v >> 8) as u8 as u16) << 8 | ((v & 0xff) as u8 as u16)) == v) by(bit_vector);
+}
 pub proof fn lemma_be16_nat(a: u8, b: u8)
     ensures be16(a, b) as nat == be_nat(seq![a, b]), be16(a, b) == a as nat * 256 + b as nat,
 {
@@ -660,6 +665,75 @@ pub open spec fn tlv16_enc(items: Seq<(u16, Seq<u8>)>) -> Seq<u8>
 }
 pub open spec fn tlv16_ok(items: Seq<(u16, Seq<u8>)>) -> bool {
     forall|i: int| 0 <= i < items.len() ==> (#[trigger] items[i]).1.len() <= 65535
+}
+
+pub proof fn lemma_tlv16_rt(pre: Seq<u8>, items: Seq<(u16, Seq<u8>)>)
+    requires tlv16_ok(items)
+    ensures tlv16(pre + tlv16_enc(items), pre.len() as int, items, (pre + tlv16_enc(items)).len() as int)
+    decreases items.len()
+{
+    let d = pre + tlv16_enc(items);
+    if items.len() > 0 {
+        let it = items.last();
+        let dl = items.drop_last();
+        assert(tlv16_ok(dl)) by { assert forall|i: int| 0 <= i < dl.len() implies (#[trigger] dl[i]).1.len() <= 65535 by { assert(dl[i] == items[i]); } }
+        lemma_tlv16_rt(pre, dl);
+        let d0 = pre + tlv16_enc(dl);
+        let qm = d0.len() as int;
+        assert(d =~= d0 + tlv16_item_enc(it));
+        lemma_tlv16_stable(d0, tlv16_item_enc(it), pre.len() as int, dl, qm);
+        assert(it.1.len() <= 65535);
+        let l = it.1.len() as u16;
+        lemma_be16_enc16(it.0);
+        lemma_be16_enc16(l);
+        assert(d[qm] == (it.0 >> 8) as u8 && d[qm + 1] == (it.0 & 0xff) as u8);
+        assert(d[qm + 2] == (l >> 8) as u8 && d[qm + 3] == (l & 0xff) as u8);
+        assert(d.subrange(qm + 4, d.len() as int) =~= it.1);
+    }
+}
+pub proof fn lemma_tlv16_stable(d: Seq<u8>, x: Seq<u8>, q0: int, items: Seq<(u16, Seq<u8>)>, q: int)
+    requires tlv16(d, q0, items, q), 0 <= q0
+    ensures tlv16(d + x, q0, items, q)
+    decreases items.len()
+{
+    if items.len() > 0 {
+        let it = items.last();
+        let qm = q - 4 - it.1.len();
+        lemma_tlv16_stable(d, x, q0, items.drop_last(), qm);
+        assert((d + x).subrange(qm + 4, q) =~= d.subrange(qm + 4, q));
+    }
+}
+pub proof fn lemma_lv8_stable(d: Seq<u8>, x: Seq<u8>, q0: int, items: Seq<Seq<u8>>, q: int)
+    requires lv8(d, q0, items, q), 0 <= q0
+    ensures lv8(d + x, q0, items, q)
+    decreases items.len()
+{
+    if items.len() > 0 {
+        let it = items.last();
+        let qm = q - 1 - it.len();
+        lemma_lv8_stable(d, x, q0, items.drop_last(), qm);
+        assert((d + x).subrange(qm + 1, q) =~= d.subrange(qm + 1, q));
+    }
+}
+pub proof fn lemma_lv8_rt(pre: Seq<u8>, items: Seq<Seq<u8>>)
+    requires lv8_ok(items)
+    ensures lv8(pre + lv8_enc(items), pre.len() as int, items, (pre + lv8_enc(items)).len() as int)
+    decreases items.len()
+{
+    let d = pre + lv8_enc(items);
+    if items.len() > 0 {
+        let it = items.last();
+        let dl = items.drop_last();
+        assert(lv8_ok(dl)) by { assert forall|i: int| 0 <= i < dl.len() implies (#[trigger] dl[i]).len() <= 255 by { assert(dl[i] == items[i]); } }
+        lemma_lv8_rt(pre, dl);
+        let d0 = pre + lv8_enc(dl);
+        let qm = d0.len() as int;
+        assert(d =~= d0 + cs_enc(it));
+        lemma_lv8_stable(d0, cs_enc(it), pre.len() as int, dl, qm);
+        assert(it.len() <= 255);
+        assert(d[qm] == it.len() as u8);
+        assert(d.subrange(qm + 1, d.len() as int) =~= it);
+    }
 }
 
 // ======================================================================== <character-string>
